@@ -214,3 +214,26 @@ func (c *Ctx) NeedDecl(rule, name string) *ast.FuncDecl {
 	}
 	return fd
 }
+
+// runAs runs a rule that is registered under another property and files its obligations under `rule` of the current one: the clause is a
+// necessary condition of both properties (the dependency is named in the rule's documentation). keep selects the constructs that matter here.
+func runAs(c *Ctx, rule string, f func(*Ctx), keep func(*Obligation) bool) int {
+	r := newReport("tmp")
+	c2 := *c
+	c2.R = r
+	f(&c2)
+	if c.e3 == nil {
+		c.e3 = c2.e3
+	}
+	n := 0
+	for _, o := range r.obls {
+		if keep != nil && !keep(o) {
+			continue
+		}
+		o.Construct = o.Rule + ":" + o.Construct
+		o.Rule = rule
+		c.R.add(o)
+		n++
+	}
+	return n
+}
